@@ -9,6 +9,7 @@ mod der;
 mod prefixlaws;
 mod reschain;
 mod rfc1982;
+mod slurm;
 mod urialg;
 
 fn main() {
@@ -27,6 +28,8 @@ fn main() {
         ("drive", "reschain") => reschain::drive(rest),
         ("replay", "prefixlaws") => prefixlaws::replay(rest),
         ("replay", "urialg") => urialg::replay(rest),
+        ("replay", "slurm") => slurm::replay(rest),
+        ("drive", "slurm") => slurm::drive(rest),
         ("drive", "urialg") => urialg::drive(rest),
         ("drive", "prefixlaws") => prefixlaws::drive(rest),
         (a, b) => {
